@@ -232,6 +232,16 @@ pub fn run(data: &[u8], ctx: &mut Ctx) -> Outcome {
             added_text.push(s);
         }
     }
+    // a type that is an envelope with assertions of its own: only the whole envelope is "the type"
+    let annotated = src.chance(100);
+    let ann_name = format!("Type{}", src.below(4));
+    let ann_version = src.below(3) as u64;
+    if annotated {
+        let ty = Envelope::new(ann_name.as_str()).add_assertion("version", ann_version);
+        t = nopanic!(ctx, t.add_type(ty), "types", "C19/types");
+        type_digests.insert(M::text(&ann_name).add(M::assertion(M::text("version"), M::leaf_item(&crate::cbor::Item::U(ann_version)))).digest());
+        ctx.class("type-with-assertions");
+    }
     ctx.class(&format!("types={}", type_digests.len().min(4)));
     let types = nopanic!(ctx, t.types(), "types", "C19/types");
     let td: BTreeSet<D32> = types.iter().map(|x| d32(&x.digest())).collect();
@@ -247,6 +257,17 @@ pub fn run(data: &[u8], ctx: &mut Ctx) -> Outcome {
         let want = added_text.iter().any(|x| x == s);
         let got = nopanic!(ctx, t.has_type_envelope(s), "types", "C19/types");
         check!(ctx, got == want && t.check_type_envelope(s).is_ok() == want, "types", if got { "C19/types/false-positive" } else { "C19/types/false-negative" }, "has_type_envelope({:?}) = {} but the type was {}added", s, got, if want { "" } else { "not " });
+    }
+    if annotated {
+        let same = Envelope::new(ann_name.as_str()).add_assertion("version", ann_version);
+        let other_version = Envelope::new(ann_name.as_str()).add_assertion("version", ann_version + 1);
+        let other_subject = Envelope::new("OtherType").add_assertion("version", ann_version);
+        check!(ctx, t.has_type_envelope(same.clone()) && t.check_type_envelope(same).is_ok(), "types", "C19/types/false-negative", "has_type_envelope is false for the annotated type that was added");
+        check!(ctx, !t.has_type_envelope(other_version.clone()) && t.check_type_envelope(other_version).is_err(), "types", "C19/types/false-positive", "has_type_envelope is true for a type with the same subject but another annotation");
+        check!(ctx, !t.has_type_envelope(other_subject), "types", "C19/types/false-positive", "has_type_envelope is true for a type with another subject");
+        // the bare subject is a different type unless it was added separately
+        let bare_added = added_text.iter().any(|x| *x == ann_name);
+        check!(ctx, t.has_type_envelope(ann_name.as_str()) == bare_added, "types", if bare_added { "C19/types/false-negative" } else { "C19/types/false-positive" }, "has_type_envelope({:?}) = {} although only the annotated type {:?} [version: {}] was added (bare added: {})", ann_name, !bare_added, ann_name, ann_version, bare_added);
     }
     let gt = nopanic!(ctx, t.get_type(), "types", "C19/types");
     check!(ctx, gt.is_ok() == (type_digests.len() == 1), "types", "C19/types/get_type", "get_type() is {} with {} types", if gt.is_ok() { "Ok" } else { "Err" }, type_digests.len());
